@@ -284,8 +284,18 @@ class Construction:
     if cls.NAME_FIELD is not None and "name" not in cls.POSFIELDS:
       cls.FIELD_ALIAS["name"] = cls.NAME_FIELD
     for k,v in cls.FIELD_ALIAS.items():
-      setattr(cls, k, getattr(cls, v))
-      setattr(cls, "try_get_" + k, getattr(cls, "try_get_" + v))
+      # (get and set look first for a tag of the line with the name of the
+      #  alias, e.g. LN in a GFA2 segment, then for the aliased field)
+      def get_method(self, k):
+        return self.get(k)
+      def set_method(self, value, k):
+        return self.set(k, value)
+      setattr(cls, k,
+          DynamicField(partial(get_method, k = k),
+                       partial(set_method, k = k)))
+      def try_get_method(self, k):
+        return self.try_get(k)
+      setattr(cls, "try_get_" + k, partialmethod(try_get_method, k = k))
 
   @classmethod
   def _define_reference_getters(cls):
